@@ -601,8 +601,8 @@ func ExtractFacts(srcPath, dstPath, rel string) (*Facts, error) {
 			if r < 128 {
 				continue
 			}
-			if !strings.ContainsRune("µΜμſςΣσÅåÉéK", r) {
-				f.Notes = append(f.Notes, "outside-model-alphabet")
+			if !strings.ContainsRune("µΜμſςΣσÅåÉéK\u00a0", r) {
+				f.Notes = append(f.Notes, fmt.Sprintf("outside-model-alphabet(%q)", r))
 				return
 			}
 		}
